@@ -213,6 +213,9 @@ PROPS["C14"] = {
     "assumptions": [],
 }
 
+PROPS["C14"]["components"].append(Seq("rc", 800, 30000, proj_model=lambda line: "conservation-broken" if line.startswith("conservation-broken") else "-",
+                                      proj_spec=lambda line: "-", label="rc-conservation"))
+PROPS["C14"]["rule"] += " rc (sequential): after every operation of the sequential counter histories (incl. the text views String / StringAt and JSON restores) rolling sum = sum of the buckets, within [0, total]."
 PROPS["C14"]["components"].append(Seq("consumers", 300, 12000, proj_model=circuit_proj(["cons"]), proj_spec=circuit_proj(["cons"]), label="consumers-conservation"))
 PROPS["C14"]["rule"] += " consumers (sequential): on every stats read each of the ten rolling counters the collectors own must have rolling sum = sum of its buckets, within [0, total] (counters that share storage fail this)."
 
@@ -227,6 +230,8 @@ PROPS["C11"] = {
 
 PROPS["C09"]["components"].append(Sched("trans", 3000, 150000, exhaustive_limit=3000, conformance="tr-trans", pb1=((40, 1500), (400, 40000))))
 PROPS["C11"]["components"].append(Sched("trans", 1500, 60000, label="sched-trans-override", only="C11:", pb1=((40, 1500), (400, 40000))))
+PROPS["C08"]["components"].append(Sched("trans", 1500, 60000, label="sched-trans-override", only="C08:", pb1=((40, 1500), (400, 40000))))
+PROPS["C08"]["rule"] += " trans (schedules): once SetConfigThreadSafe(ForcedClosed / ForceOpen) has returned, no transition that STARTS afterwards announces Opened / Closed against it."
 PROPS["C11"]["rule"] += " trans (schedules): a transition racing a live change of an override flag (ForceOpen on, ForcedClosed on, overrides off) must behave as under the old or the new setting: never a second Opened for an open circuit, never a Closed for a closed one."
 PROPS["C09"]["rule"] += " trans: 2-4 threads among OpenCircuit / CloseCircuit / failing call (opener says open) / succeeding probe (closer admits and says close) race from a closed or open circuit under the cooperative scheduler; quiescent monitor: alternation and IsOpen = last notification."
 PROPS["C09"]["trusted_base"] = TB_CIRCUIT + TB_SCHED
